@@ -51,14 +51,39 @@ def who(ctx, attr, allowed, kinds=("rebind", "elem", "mut", "del_elem", "del_att
                 and not isinstance(s["node"].value.value, bool):
             ctx.ok(rule, key, ctx.where(f, s["node"]), "reset to 0 / None (cannot invent a result)")
             continue
+        via = private_only_from(repo, f, allowed)
         if f.qualname in allowed:
             found += 1
             ctx.ok(rule, key, ctx.where(f, s["node"]), f"allowed writer: {allowed[f.qualname]}")
+        elif via:
+            found += 1
+            ctx.ok(rule, key, ctx.where(f, s["node"]), f"private helper entered only from the allowed writer(s) {via}")
         else:
             ctx.violation(rule, key, ctx.where(f, s["node"]),
                           f"`{f.module.line(s['node'].lineno)}` writes .{attr} outside the allowed writers {sorted(allowed)}")
     ctx.count(rule, label or attr, found, minimum)
     return sites
+
+
+def private_only_from(repo, f, allowed, depth=0):
+    """f is a private helper (`_name`, not `_build_matrix`-like units the rules name) whose every caller is an allowed function or
+    again such a helper: the write it performs belongs to its callers.  -> sorted caller names, or None"""
+    if not sym.auto_inline(f) or depth > 3:
+        return None
+    callers = repo.callers_of(f.qualname)
+    if not callers:
+        return None
+    out = set()
+    for c in callers:
+        if c in allowed:
+            out.add(c)
+            continue
+        cf = repo.functions.get(c)
+        sub = private_only_from(repo, cf, allowed, depth + 1) if cf is not None else None
+        if not sub:
+            return None
+        out.update(sub)
+    return sorted(out)
 
 
 # ------------------------------------------------------------------ AST-level helpers
@@ -379,6 +404,15 @@ def arrnf(t):
             fn, a = x[1], x[2]
             if fn in ("numpy.array", "numpy.asarray") and len(a) >= 1 and a[0][0] in ("fill", "concat", "seq", "rep", "arr"):
                 return a[0] if a[0][0] != "arr" else T.seq(a[0][1])
+            if fn in ("numpy.ones", "numpy.zeros") and len(a) == 1 and a[0][0] == "seq" and len(a[0][1]) == 2 and a[0][1][0] == T.num(1):
+                # a (1, n) block: one row
+                return ("row", ("fill", T.num(1) if fn == "numpy.ones" else T.num(0), a[0][1][1]))
+            if fn == "numpy.vstack" and len(a) == 1 and a[0][0] == "seq" and any(p_[0] == "row" for p_ in a[0][1]):
+                # stacking a (1, n) block under a matrix is stacking the 1-D vector
+                return ("call", "numpy.vstack", (T.seq(tuple(p_[1] if p_[0] == "row" else p_ for p_ in a[0][1])),), x[3])
+            if fn == "numpy.column_stack" and len(a) == 1 and a[0][0] == "seq" and len(a[0][1]) == 2 and a[0][1][1][0] in ("fill", "concat", "seq"):
+                # column_stack((M, v)) with a 1-D v appends v as a column: hstack((M, v.reshape(-1, 1)))
+                return ("call", "numpy.hstack", (T.seq((a[0][1][0], ("col", a[0][1][1]))),), x[3])
             if fn in ("numpy.ones", "numpy.zeros") and len(a) == 1 and a[0][0] not in ("seq", "arr"):
                 c = T.num(1) if fn == "numpy.ones" else T.num(0)
                 if a[0][0] == "num" and a[0][1].denominator == 1 and 0 <= a[0][1] <= 4:
